@@ -276,6 +276,23 @@ impl<'a> Runner<'a> {
         }
     }
 
+    /// The finished, not yet yielded child an identity-less (zero-sized) output stands for: the head
+    /// of the queue for ordered subjects, the oldest finished one otherwise. Failed try-children are
+    /// not candidates (their output is an identified error).
+    fn resolve_anon(&self, ordered: bool) -> Option<u32> {
+        with(|w| {
+            let done = |c: u32| {
+                let ch = &w.children[c as usize];
+                ch.completed_at.is_some() && !ch.yielded && !ch.panicked && !(ch.beh.fail && self.kind().is_try())
+            };
+            if ordered {
+                self.queue.front().copied().filter(|&c| done(c))
+            } else {
+                self.queue.iter().copied().find(|&c| done(c))
+            }
+        })
+    }
+
     fn take_tok(&mut self, t: Tok, prop: &str, ctx: &str) -> Option<(u32, u32, u32)> {
         let r = with(|w| w.check_tok(&t, prop, ctx));
         drop(t);
@@ -295,6 +312,16 @@ impl<'a> Runner<'a> {
                     last = Last::Item;
                     self.res.items += 1;
                     if let Some((child, _, k)) = self.take_tok(t, "C02", ctx) {
+                        let (child, k) = if k == K_ANON {
+                            // a zero-sized output: it stands for the finished child the model expects
+                            match self.resolve_anon(kind.ordered()) {
+                                Some(c) => (c, K_OK),
+                                None if kind.ordered() => (self.resolve_anon(false).unwrap_or(u32::MAX), K_OK),
+                                None => (u32::MAX, K_OK),
+                            }
+                        } else {
+                            (child, k)
+                        };
                         with(|w| w.log(0x31, child as u64));
                         let pos = self.queue.iter().position(|&c| c == child);
                         let completed =
@@ -455,6 +482,20 @@ impl<'a> Runner<'a> {
                         last = Last::Item;
                         self.res.items += 1;
                         if let Some((child, _, k)) = self.take_tok(t, "C10", ctx) {
+                            let (child, k) = if k == K_ANON {
+                                match self.resolve_anon(kind.ordered()) {
+                                    Some(c) => (c, K_OK),
+                                    // nothing finished that it could stand for: reported below as
+                                    // not-in-flight (unordered) / out of order (ordered: head unfinished)
+                                    None if kind.ordered() && !self.queue.is_empty() => {
+                                        let any = self.resolve_anon(false).unwrap_or(u32::MAX);
+                                        (any, K_OK)
+                                    }
+                                    None => (u32::MAX, K_OK),
+                                }
+                            } else {
+                                (child, k)
+                            };
                             with(|w| w.log(0x31, child as u64 ^ ((k as u64) << 40)));
                             if k == K_UPERR {
                                 self.err_toks_seen += 1;
@@ -564,7 +605,7 @@ impl<'a> Runner<'a> {
                                 ),
                             );
                         }
-                        if n == 0 && !up_ended && !up_pending_call && !task_woken && self.queue.is_empty() {
+                        if n == 0 && kind == SubjectKind::FEC && !up_ended && !up_pending_call && !task_woken && self.queue.is_empty() {
                             self.violate(
                                 "C10",
                                 "limit-0-never-progresses",
@@ -1962,10 +2003,15 @@ impl<'a> Runner<'a> {
                 }
                 let id = c[pick(*sel, c.len())];
                 with(|w| {
+                    let promise = w.src_promise;
                     let ch = &mut w.children[id as usize];
                     ch.closed = true;
                     if ch.avail == INF {
                         ch.avail = 0;
+                    }
+                    if promise && ch.avail == 0 {
+                        // it has been reporting "at least one more": keep the promise
+                        ch.avail = 1;
                     }
                     w.log(0x5a, id as u64);
                 });
@@ -2273,6 +2319,7 @@ fn run_inner2(cfg: &Config, trace: &[Op]) -> RunResult {
         w.inexact_iter = cfg.inexact_iter;
         w.ordered_adapter = matches!(cfg.subject, SubjectKind::BO | SubjectKind::TBO);
         w.src_hints = cfg.src_hints;
+        w.src_promise = cfg.src_promise && cfg.src_hints;
         w.limit = cfg.cap;
         w.up.script = cfg.upstream.clone();
         w.up.released = cfg.up_released.min(cfg.upstream.len());
